@@ -845,6 +845,10 @@ func c06Outbound(c *core.Case, vn *vnet.Net, V *vnet.Node, isolate bool, isFrien
 		c.Class("outbound-blocked")
 	}
 	c.Eval("out|"+desc, false, nil)
+	for _, e := range vn.Queue[before:] {
+		_ = e // (frames in flight hold copies; their buffers went back to the builder)
+	}
+	c17PoolExclusive(c, V.Builder, len(pkt)+1, "after a local packet ("+desc+")")
 	vn.Queue = vn.Queue[:before]
 	for len(V.Tun.SendRaw) > 0 {
 		<-V.Tun.SendRaw
